@@ -17,6 +17,7 @@ import (
 	"go/ast"
 	"go/constant"
 	"go/token"
+	"go/types"
 	"sort"
 	"strings"
 )
@@ -29,6 +30,7 @@ func init() {
 		"pkg/controllers/state",
 		"pkg/controllers/disruption",
 		"pkg/controllers/nodeclaim/disruption",
+		"pkg/controllers/provisioning/scheduling",
 		"pkg/utils/disruption",
 		"pkg/utils/pod",
 		"pkg/utils/pdb",
@@ -95,7 +97,96 @@ func init() {
 		g.callSeq(c07Group, "pkg/controllers/disruption", "SimulateScheduling", "simulateSchedulingCalls",
 			[]string{"DeepCopyNodes", "Deleting", "Active", "GetPendingPods", "NewScheduler", "Solve"})
 		c07SubReconcilers(g)
+		c07ProtectionWriters(g)
 	})
+}
+
+// c07ProtectionWriters: the control flow around the two callers that write the in-memory protections.
+//
+//	recordNominateCalls          — calls of Cluster.NominateNodeForPod in scheduling.Results.Record
+//	recordReturnsBeforeNominate  — return statements of Results.Record that precede the (first) nomination call: an
+//	                               early exit ("nothing to report") before it would skip the nominations
+//	completeCommandUnmarkGuards  — for every Cluster.UnmarkForDeletion call of disruption.Queue.CompleteCommand the
+//	                               conditions of the if statements around it, innermost last, joined by " && "
+//	                               ("" = unconditional)
+//	startCommandMarks            — calls of Cluster.MarkForDeletion in Queue.StartCommand
+func c07ProtectionWriters(g *gen) {
+	b := g.out(c07Group)
+	calls, pos := g.callsIn("pkg/controllers/provisioning/scheduling", "Results.Record", "NominateNodeForPod")
+	_, fd := g.findFunc("pkg/controllers/provisioning/scheduling", "Results.Record")
+	if fd == nil {
+		g.errf("scheduling.Results.Record not found")
+		return
+	}
+	before := 0
+	if len(calls) > 0 {
+		first := calls[0].Pos()
+		for _, c := range calls {
+			if c.Pos() < first {
+				first = c.Pos()
+			}
+		}
+		ast.Inspect(fd.Body, func(n ast.Node) bool {
+			if _, ok := n.(*ast.FuncLit); ok {
+				return false // a return inside a closure does not leave Record
+			}
+			if r, ok := n.(*ast.ReturnStmt); ok && r.Pos() < first {
+				before++
+			}
+			return true
+		})
+	}
+	fmt.Fprintf(b, "/-- calls of `Cluster.NominateNodeForPod` in `scheduling.Results.Record` (%s) -/\ndef recordNominateCalls : Nat := %d\n\n", g.pos(pos), len(calls))
+	fmt.Fprintf(b, "/-- return statements of `Results.Record` that precede its first nomination call: 0 = no early exit can skip the nominations -/\ndef recordReturnsBeforeNominate : Nat := %d\n\n", before)
+
+	_, cd := g.findFunc("pkg/controllers/disruption", "Queue.CompleteCommand")
+	if cd == nil {
+		g.errf("disruption.Queue.CompleteCommand not found")
+		return
+	}
+	var guards []string
+	var walk func(n ast.Node, conds []string)
+	walk = func(n ast.Node, conds []string) {
+		switch v := n.(type) {
+		case nil:
+			return
+		case *ast.IfStmt:
+			if v.Init != nil {
+				walk(v.Init, conds)
+			}
+			walk(v.Cond, conds)
+			walk(v.Body, append(append([]string{}, conds...), types.ExprString(v.Cond)))
+			if v.Else != nil {
+				walk(v.Else, append(append([]string{}, conds...), "!("+types.ExprString(v.Cond)+")"))
+			}
+			return
+		case *ast.CallExpr:
+			name := exprString(v.Fun)
+			if name == "UnmarkForDeletion" || strings.HasSuffix(name, ".UnmarkForDeletion") {
+				guards = append(guards, strings.Join(conds, " && "))
+			}
+		}
+		// generic descent over the children, keeping the guards
+		var children []ast.Node
+		first := true
+		ast.Inspect(n, func(c ast.Node) bool {
+			if first {
+				first = false
+				return true
+			}
+			if c != nil {
+				children = append(children, c)
+			}
+			return false
+		})
+		for _, c := range children {
+			walk(c, conds)
+		}
+	}
+	walk(cd.Body, nil)
+	g.leanStrList(c07Group, fmt.Sprintf("guards of the `Cluster.UnmarkForDeletion` calls of `disruption.Queue.CompleteCommand` (%s): the candidates of a command are released only under these conditions", g.pos(cd.Pos())), "completeCommandUnmarkGuards", guards)
+	marks, mpos := g.callsIn("pkg/controllers/disruption", "Queue.StartCommand", "MarkForDeletion")
+	fmt.Fprintf(b, "/-- calls of `Cluster.MarkForDeletion` in `disruption.Queue.StartCommand` (%s) -/\ndef startCommandMarks : Nat := %d\n\n", g.pos(mpos), len(marks))
 }
 
 // c07SubReconcilers: the control flow of `nodeclaim/disruption.Controller` that decides whether the Consolidation
